@@ -216,7 +216,7 @@ pub fn run_families(rep: &mut Report, families: Vec<SeqSpec>, budget: Duration, 
         }
         for f in r.found.iter() {
             *outcomes.entry(f.clause.clone()).or_default() += 1;
-            if own_clause(&f.clause) {
+            if own_clause(&f.clause) || crate::report::is_fatal_clause(&f.clause) {
                 if rep.findings.len() < 2000 {
                     rep.findings.push(Finding {
                         clause: f.clause.clone(),
